@@ -3,11 +3,14 @@
 One case = one ensemble of R realizations x (unperturbed + P perturbations) whose evaluator output is a table
 chosen by the generator, with NaN injected per (realization, slot) and per column.  Perturbations come from
 an injected deterministic sampler plug-in (registered through PluginManager.add_plugin).  The real code runs
-  * on the full ensemble (EnsembleEvaluator.calculate, functions + gradients),
+  * on the full ensemble (EnsembleEvaluator.calculate, functions + gradients jointly, or a function request followed by
+    a gradient-only request on the same object; per-realization or merged estimation),
   * on the ensemble with the failed realizations physically removed (functions),
   * on the ensemble with the gradient-failed realizations and failed perturbations physically removed
     (when the survivors keep equally many perturbations; otherwise one run per surviving realization),
-  * through an optimizer step (scripted optimizer plug-in: exactly one evaluation) and an evaluator step.
+  * on the 'twin' ensemble (everything that belongs to a failed realization / perturbation replaced by other numbers),
+  * through an optimizer step (scripted optimizer plug-in: exactly one evaluation) and an evaluator step (exit codes and
+    the results delivered with FINISHED_EVALUATION).
 Coq (Chk_C03.check_case) compares flags, thresholds, gates and exit codes exactly with Model/Ensemble.v, and
 the values of the full run with those of the reduced runs with tolerance.
 """
